@@ -26,6 +26,8 @@ NPROC = 8          # per back end
 
 def _run_workers(name, tier):
     procs = []
+    from . import extcache
+    pkg = extcache.package_dir()      # current sources + extension built from the current .pyx
     for backend in ("c", "py"):
         env = dict(os.environ)
         env["PYTHONPATH"] = ROOT + os.pathsep + os.environ.get("PYVC_REPO", "/repo")
@@ -33,17 +35,28 @@ def _run_workers(name, tier):
             env["YARL_NO_EXTENSIONS"] = "1"
         else:
             env.pop("YARL_NO_EXTENSIONS", None)
+            if pkg is None:
+                procs.append((backend, 0, None))
+                continue
+            env["PYTHONPATH"] = ROOT + os.pathsep + pkg
         for k in range(NPROC):
             p = subprocess.Popen([sys.executable, "-m", "contracts.bounded_worker", name, tier, str(k), str(NPROC)],
                                  cwd=ROOT, env=env, stdout=subprocess.PIPE, stderr=subprocess.PIPE, text=True)
             procs.append((backend, k, p))
     res = []
     for backend, k, p in procs:
+        if p is None:
+            res.append({"backend": backend, "error": "the compiled quoter could not be built from the current .pyx"})
+            continue
         out, err = p.communicate()
         if p.returncode != 0:
             res.append({"backend": backend, "error": (err or out)[-2000:]})
             continue
         d = json.loads(out)
+        want = "_quoting_c" if backend == "c" else "_quoting_py"
+        if not str(d.get("impl")).endswith(want):
+            res.append({"backend": backend, "error": f"worker ran {d.get('impl')} instead of {want}"})
+            continue
         d["backend"] = backend
         res.append(d)
     return res
